@@ -80,7 +80,9 @@ def cases(draw, cfg):
                 # overwrite with a value of the same encoded size (two different indices of the value pool are not enough: use the digit pool)
                 ops.append(['flipset', draw(ki), draw(st.integers(0, 9))])
         reads = draw(st.lists(st.sampled_from(READERS), min_size=1, max_size=3, unique=True))
-        segs.append({'ops': ops, 'reads': reads})
+        # what each reader asks for: the whole contents, only the key listing, or value lookups without any listing
+        views = [draw(st.sampled_from(['items', 'items', 'keys', 'get'])) for _ in reads]
+        segs.append({'ops': ops, 'reads': reads, 'views': views})
     return {'cfg': cfg, 'keys': pool, 'vals': vals, 'writer': writer, 'segs': segs, 'mode': 'history'}
 
 
@@ -214,30 +216,34 @@ def _history(case, root):
             out.append(Discrepancy('C04/%s/write/%s/raised/%s' % (cfg, case['writer'], exc_sig(e)), 'segment %d %r: %r' % (si, ops, e)))
             break
         # ---- readers
-        for place in seg['reads']:
+        for ri, place in enumerate(seg['reads']):
+            view = (seg.get('views') or ['items'] * len(seg['reads']))[ri]
+            vreq = {'view': view, 'keys': case['keys']}
             if place == 'same':
                 if case['writer'] == 'inproc':
-                    obs = A.observe(handle)
+                    obs = A.observe(handle, view, keys)
                 elif case['writer'] == 'worker':
-                    obs = wk.request({'cmd': 'read', 'cfg': cfg, 'root': root, 'name': name, 'handle': 'kept'})
+                    obs = wk.request(dict({'cmd': 'read', 'cfg': cfg, 'root': root, 'name': name, 'handle': 'kept'}, **vreq))
                     flags['otherproc_read'] += 1
                 else:
                     continue
             elif place == 'new':
                 try:
-                    obs = A.observe(A.open_archive(cfg, root, name))
+                    obs = A.observe(A.open_archive(cfg, root, name), view, keys)
                 except Exception as e:
                     obs = ('exc', type(e).__name__, 'open: %r' % e)
             elif place == 'fork':
-                obs = procs.in_fork(lambda: _open_observe(cfg, root, name))
+                obs = procs.in_fork(lambda: _open_observe(cfg, root, name, view, keys))
                 flags['otherproc_read'] += 1
             else:
                 rd = worker('reader')
-                obs = rd.request({'cmd': 'read', 'cfg': cfg, 'root': root, 'name': name, 'handle': 'kept' if place == 'worker_kept' else 'new'})
+                obs = rd.request(dict({'cmd': 'read', 'cfg': cfg, 'root': root, 'name': name, 'handle': 'kept' if place == 'worker_kept' else 'new'}, **vreq))
                 flags['otherproc_read'] += 1
             readers.append(place)
             classes.append('reader:' + place)
-            d = _compare(cfg, case['writer'], place, si, obs, model)
+            classes.append('view:' + view)
+            want = model if view != 'keys' else dict((k, None) for k in model)
+            d = _compare(cfg, case['writer'], place + ('' if view == 'items' else '-' + view), si, obs, want)
             if d is not None:
                 out.append(d)
                 break
@@ -283,12 +289,12 @@ def _close(a):
             pass
 
 
-def _open_observe(cfg, root, name):
+def _open_observe(cfg, root, name, view='items', keys=None):
     try:
         a = A.open_archive(cfg, root, name)
     except Exception as e:
         return ('exc', type(e).__name__, 'open: %r' % e)
-    return A.observe(a)
+    return A.observe(a, view, keys)
 
 
 def _compare(cfg, writer, place, si, obs, model):
@@ -437,6 +443,6 @@ def _session(case, root):
     return out, nt, classes
 
 
-REQUIRED_CLASSES = ['overwrite', 'otherproc_read', 'samesize_overwrite', 'mutated_after_store', 'session', 'rebuild:copy', 'rebuild:dill', 'rebuild:cached-load',
+REQUIRED_CLASSES = ['view:items', 'view:keys', 'view:get', 'overwrite', 'otherproc_read', 'samesize_overwrite', 'mutated_after_store', 'session', 'rebuild:copy', 'rebuild:dill', 'rebuild:cached-load',
                     'rebuild:pickled-cache', 'writer:inproc', 'writer:forked', 'writer:worker'] + ['reader:' + r for r in READERS] + ['cfg:' + c for c in CONFIGS]
 TRIGGERS = {}
